@@ -4,3 +4,4 @@ pub mod time_ref;
 pub mod units_ref;
 pub mod universe;
 pub mod v;
+pub mod zinc_ref;
